@@ -47,10 +47,14 @@ def run(ctx):
         # the closure compares its item against a captured variable; map the capture back to the caller's value
         thr_in_closure = None
         if pred:
+            ip = q.item_param(cf)
             for side in (pred[1], pred[2]):
-                s = facts.strip_refs(side)
-                if s[0] == 'upvar':
-                    thr_in_closure = norm(agg[2][s[1]]) if s[1] < len(agg[2]) else None
+                if side is None:
+                    continue
+                r = norm(q.resolve_captures(lib, cf, side)) if cf.is_closure else norm(side)
+                if q.find_sub(r, lambda x: x[0] == 'param' and x[1] == ip and cf.is_closure is False) is None and \
+                        q.find_sub(side, lambda x: x[0] == 'param' and x[1] == ip) is None:
+                    thr_in_closure = r
         for dv in divs:
             # guard of the division that compares the numerator (the element) with something
             num = norm(dv['num'])
@@ -150,7 +154,7 @@ def run(ctx):
             uses_info = q.find_sub(a1, lambda s: s[0] == 'field' and s[2] == '0' and q.find_sub(s, lambda u: u == z) is not None) is not None
             uses_probs = q.find_sub(a0, lambda s: s[0] == 'field' and s[2] == '1' and q.find_sub(s, lambda u: u == z) is not None) is not None
             cf, _ = q.closure_of(lib, a1)
-            lens_ok = cf is not None and any(short(p) == 'num_actions' for _, _, p in cf.calls())
+            lens_ok = cf is not None and (short(cf.name) == 'num_actions' or any(short(p) == 'num_actions' for _, _, p in cf.calls()))
             ok = 'player_infosets' in l and 'probs' in r and uses_info and uses_probs and lens_ok
             detail = 'zip(%s, %s); slice from item.1=%s, lengths from item.0=%s via num_actions=%s' % (l[:60], r[:40], uses_probs, uses_info, lens_ok)
         ctx.verdict(ok, rule, '%s:%s' % (rule, q.top(f.name)),
